@@ -191,7 +191,7 @@ def oracle(c, ob, rng):
     elif kind == 'hist':
         # conservation of s.n through every division of the history (explicit initial states excepted)
         prev = None
-        for (col, ops), o in zip(c['hist'], ob['obs']):
+        for (col, ops), o in zip([(e[0], e[1]) for e in c['hist']], ob['obs']):
             if 'err' in o:
                 break
             for op in ops:
